@@ -74,7 +74,10 @@ def ThreadOk (net : Net) (c : Cert) (t : Nat) : Prop :=
     if t = net.threads.length - 1 then MainOk c net.mbs.length net.threads.length th
     else match c.out t with
       | some m => SenderOk c net.mbs.length t m th
-      | none => SinkOk c net.mbs.length t th
+      | none => SinkOk c net.mbs.length t th ∧
+          (match net.mbs[(c.src t).1]? with
+           | some sp => (c.src t).2 < sp.drive.length
+           | none => False)
 
 /-- total number of messages (with the final `StopIteration`) the sender of `m` sends -/
 def tot (net : Net) (c : Cert) (m : Nat) : Nat :=
@@ -118,7 +121,11 @@ instance (net : Net) (c : Cert) (t : Nat) : Decidable (ThreadOk net c t) := by
     by_cases h : t = net.threads.length - 1
     · simp only [h, if_true]; infer_instance
     · simp only [h, if_false]
-      cases c.out t <;> simp only <;> infer_instance
+      cases c.out t with
+      | some m => simp only; infer_instance
+      | none =>
+        simp only
+        cases net.mbs[(c.src t).1]? <;> simp only <;> infer_instance
 instance (net : Net) (c : Cert) (m k : Nat) : Decidable (ReaderOk net c m k) := by
   unfold ReaderOk
   cases net.threads[c.reader m k]? <;> simp only <;> infer_instance
@@ -126,6 +133,154 @@ instance (net : Net) (c : Cert) (m : Nat) : Decidable (MailboxOk net c m) := by
   unfold MailboxOk
   cases net.mbs[m]? <;> simp only <;> infer_instance
 instance (net : Net) (c : Cert) : Decidable (TreeNet net c) := by unfold TreeNet; infer_instance
+
+/-! ### consequences of the static shape -/
+
+theorem TreeNet.mailbox {net : Net} {c : Cert} (h : TreeNet net c) {m : Nat} (hm : m < net.mbs.length) :
+    ∃ sp, net.mbs[m]? = some sp ∧ 1 ≤ sp.cap ∧ c.pipe m < sp.drive.length ∧ sp.drive[c.pipe m]? = some true ∧
+      c.sender m < net.threads.length - 1 ∧ c.out (c.sender m) = some m ∧ ∀ k, k < sp.drive.length → ReaderOk net c m k := by
+  have := h.2.1 m hm
+  unfold MailboxOk at this
+  cases hsp : net.mbs[m]? with
+  | none => simp [hsp] at this
+  | some sp => simp only [hsp] at this; exact ⟨sp, rfl, this⟩
+
+inductive Kind (net : Net) (c : Cert) (t : Nat) (th : Thread) : Prop
+  | main : t = net.threads.length - 1 → MainOk c net.mbs.length net.threads.length th → Kind net c t th
+  | sender (m : Nat) : t ≠ net.threads.length - 1 → c.out t = some m → SenderOk c net.mbs.length t m th → Kind net c t th
+  | sink : t ≠ net.threads.length - 1 → c.out t = none → SinkOk c net.mbs.length t th →
+      (∃ sp, net.mbs[(c.src t).1]? = some sp ∧ (c.src t).2 < sp.drive.length) → Kind net c t th
+
+theorem TreeNet.kind {net : Net} {c : Cert} (h : TreeNet net c) {t : Nat} {th : Thread} (ht : net.threads[t]? = some th) :
+    Kind net c t th := by
+  have hlt : t < net.threads.length := (List.getElem?_eq_some_iff.mp ht).1
+  have := h.2.2 t hlt
+  unfold ThreadOk at this
+  simp only [ht] at this
+  by_cases hm : t = net.threads.length - 1
+  · simp only [hm, if_true] at this; exact .main hm (by simpa [hm] using this)
+  · simp only [hm, if_false] at this
+    cases ho : c.out t with
+    | some m => simp only [ho] at this; exact .sender m hm ho this
+    | none =>
+      simp only [ho] at this
+      refine .sink hm ho this.1 ?_
+      cases hsp : net.mbs[(c.src t).1]? with
+      | none => simp [hsp] at this
+      | some sp => simp only [hsp] at this; exact ⟨sp, rfl, this.2⟩
+
+theorem dropLast_getLast? {α} (l : List α) (a : α) (h : l.getLast? = some a) : l = l.dropLast ++ [a] := by
+  induction l with
+  | nil => simp at h
+  | cons x r ih =>
+    cases r with
+    | nil => simp at h; subst h; simp
+    | cons y r' =>
+      have : (y :: r').getLast? = some a := by simpa [List.getLast?_cons_cons] using h
+      have := ih this
+      simp only [List.dropLast_cons_cons, List.cons_append]
+      rw [← this]
+
+/-- the body of a sender is `pre ++ [close m]` -/
+theorem SenderOk.body {c : Cert} {nm t m : Nat} {th : Thread} (h : SenderOk c nm t m th) :
+    th.body = th.body.dropLast ++ [.close m] := by
+  have := h.2.2.2.1
+  exact dropLast_getLast? _ _ this
+
+theorem SenderOk.mem {c : Cert} {nm t m : Nat} {th : Thread} (h : SenderOk c nm t m th) {i : Instr} (hi : i ∈ th.body) :
+    i = .close m ∨ senderInstrOk c nm t m i := by
+  rw [h.body] at hi
+  rcases List.mem_append.mp hi with hi | hi
+  · exact Or.inr (h.2.2.2.2 i hi)
+  · simp at hi; exact Or.inl hi
+
+theorem MainOk.epi_eq {c : Cert} {nm n : Nat} {th : Thread} (h : MainOk c nm n th) :
+    ∃ sv, th.epi = (List.range nm).map Instr.killIfExc ++ (List.range (n - 1)).map Instr.join ++ [.finish sv] := by
+  have := h.2.2.2.2.2.2
+  split at this
+  · rename_i sv _; exact ⟨sv, this⟩
+  · exact this.elim
+
+theorem MainOk.epi_mem {c : Cert} {nm n : Nat} {th : Thread} (h : MainOk c nm n th) {i : Instr} (hi : i ∈ th.epi) :
+    (∃ m, m < nm ∧ i = .killIfExc m) ∨ (∃ u, u < n - 1 ∧ i = .join u) ∨ ∃ sv, i = .finish sv := by
+  obtain ⟨sv, he⟩ := h.epi_eq
+  rw [he] at hi
+  simp only [List.mem_append, List.mem_map, List.mem_range, List.mem_singleton] at hi
+  rcases hi with (⟨m, hm, rfl⟩ | ⟨u, hu, rfl⟩) | rfl
+  · exact Or.inl ⟨m, hm, rfl⟩
+  · exact Or.inr (Or.inl ⟨u, hu, rfl⟩)
+  · exact Or.inr (Or.inr ⟨sv, rfl⟩)
+
+theorem MainOk.body_mem {c : Cert} {nm n : Nat} {th : Thread} (h : MainOk c nm n th) {i : Instr} (hi : i ∈ th.body) :
+    i = .read (c.src (n - 1)).1 (c.src (n - 1)).2 ∨ i.isFail = true ∨ i ∈ th.epi := by
+  rw [h.2.2.2.2.1] at hi
+  rcases List.mem_append.mp hi with hi | hi
+  · rcases h.2.2.2.2.2.1 i hi with h1 | h1
+    · exact Or.inl h1
+    · exact Or.inr (Or.inl h1)
+  · exact Or.inr (Or.inr hi)
+
+/-- whoever has `read m k` in its body is the registered reader of that subscription, and the subscription exists -/
+theorem read_owner {net : Net} {c : Cert} (h : TreeNet net c) {t : Nat} {th : Thread} (ht : net.threads[t]? = some th)
+    {m k : Nat} (hi : Instr.read m k ∈ th.body) :
+    c.reader m k = t ∧ ∃ sp, net.mbs[m]? = some sp ∧ k < sp.drive.length := by
+  cases h.kind ht with
+  | main hm hok =>
+    rcases hok.body_mem hi with h1 | h1 | h1
+    · cases h1
+      obtain ⟨sp, hsp, _, hp, _⟩ := h.mailbox hok.1
+      refine ⟨by rw [hok.2.1, hm], sp, hsp, ?_⟩
+      rw [← hok.2.2.1]; exact hp
+    · simp [Instr.isFail] at h1
+    · rcases hok.epi_mem h1 with ⟨_, _, h2⟩ | ⟨_, _, h2⟩ | ⟨_, h2⟩ <;> cases h2
+  | sender mo hm ho hok =>
+    rcases hok.mem hi with h1 | h1
+    · cases h1
+    · simp only [senderInstrOk] at h1
+      obtain ⟨sp, hsp, _, hp, _⟩ := h.mailbox h1.1
+      exact ⟨h1.2.1, sp, hsp, by rw [← h1.2.2.1]; exact hp⟩
+  | sink hm ho hok hv =>
+    rcases hok.2.2.2.1 _ hi with h1 | h1 | h1
+    · cases h1; exact ⟨hok.2.1, hv⟩
+    · simp [Instr.isFail] at h1
+    · simp [Instr.isDie] at h1
+
+/-- whoever has `gate m`, `send m` or `close m` in its body is the sender of `m` -/
+theorem out_owner {net : Net} {c : Cert} (h : TreeNet net c) {t : Nat} {th : Thread} (ht : net.threads[t]? = some th)
+    {i : Instr} {m : Nat} (hi : i ∈ th.body) (hm : i = .gate m ∨ i = .send m ∨ i = .close m) :
+    c.out t = some m ∧ c.sender m = t ∧ m < net.mbs.length ∧ SenderOk c net.mbs.length t m th := by
+  cases h.kind ht with
+  | main hmain hok =>
+    rcases hok.body_mem hi with h1 | h1 | h1
+    · rcases hm with rfl | rfl | rfl <;> cases h1
+    · rcases hm with rfl | rfl | rfl <;> simp [Instr.isFail] at h1
+    · rcases hok.epi_mem h1 with ⟨_, _, h2⟩ | ⟨_, _, h2⟩ | ⟨_, h2⟩ <;> rcases hm with rfl | rfl | rfl <;> cases h2
+  | sender mo hne ho hok =>
+    have : m = mo := by
+      rcases hok.mem hi with h1 | h1
+      · rcases hm with rfl | rfl | rfl <;> cases h1; rfl
+      · rcases hm with rfl | rfl | rfl <;> simp only [senderInstrOk] at h1
+        · exact h1
+        · exact h1
+    subst this
+    exact ⟨ho, hok.2.1, hok.1, hok⟩
+  | sink hne ho hok hv =>
+    rcases hok.2.2.2.1 _ hi with h1 | h1 | h1
+    · rcases hm with rfl | rfl | rfl <;> cases h1
+    · rcases hm with rfl | rfl | rfl <;> simp [Instr.isFail] at h1
+    · rcases hm with rfl | rfl | rfl <;> simp [Instr.isDie] at h1
+
+/-- the sender thread of a mailbox -/
+theorem sender_thread {net : Net} {c : Cert} (h : TreeNet net c) {m : Nat} (hm : m < net.mbs.length) :
+    ∃ th, net.threads[c.sender m]? = some th ∧ c.sender m ≠ net.threads.length - 1 ∧ SenderOk c net.mbs.length (c.sender m) m th := by
+  obtain ⟨sp, hsp, _, _, _, hlt, hout, _⟩ := h.mailbox hm
+  have hlt' : c.sender m < net.threads.length := by omega
+  have hth : net.threads[c.sender m]? = some (net.threads[c.sender m]'hlt') := List.getElem?_eq_getElem hlt'
+  refine ⟨_, hth, by omega, ?_⟩
+  cases h.kind hth with
+  | main hmain _ => omega
+  | sender mo _ ho hok => rw [hout] at ho; cases ho; exact hok
+  | sink _ ho _ _ => rw [hout] at ho; cases ho
 
 /-! ### the certificate of a wired net, computed -/
 
